@@ -15,3 +15,6 @@ open GoRedis
 #print axioms C05_range_options
 #print axioms C05_zrangebyscore
 #print axioms C05_scan_invalid_utf8
+#print axioms C05_zrange_index
+#print axioms C05_zrange_byscore
+#print axioms C05_zadd
